@@ -130,6 +130,11 @@ class BpWorld(World):
                             for (p, n, m) in prm['tx_routes']],
             accept_after_verify=prm['accept_after_verify'],
         )
+        if prm.get('config_text') is not None:
+            # the way the daemon gets its settings: the configuration file over the defaults
+            import io
+            cfg.from_file(io.StringIO(prm['config_text']))
+        self.cfg = cfg
         cfg._bus_conn = proc.bus
         if _CL_CLASS is None:
             _CL_CLASS = make_cl_class()
